@@ -2,11 +2,77 @@
      (0 n c)            -> list of chunks, each a list of (i j)
      (1 n c order D)    -> pipeline over chunk order [order] with d i j = D[i][j]
      (2 sigmoid a b)    -> mse distance
-     (3 n c k)          -> one chunk *)
+     (3 n c k)          -> one chunk
+   and, running the TRANSLATED source (Generated/Src*.v) instead of the hand-written model, so that the primitives the
+   translation trusts are compared with numpy / itertools on every run:
+     (4 n c order D)    -> the translated pipeline (calculate_pairwise, save, load per chunk; concat; to_dense)
+     (5 script)         -> a script of ChunkedDistanceMatrix calls on a register file of stored objects (values are
+                           integers): (0 size n_chunks chunk_index chunk_size?) new, (1 r i j v) add_value,
+                           (2 ra rb) combine, (3 (r ...)) concat, (4 r) is_complete, (5 r) to_dense,
+                           (6 n k c) get_lower_triangular_indices_chunk, (7 r) save then load;
+                           answer: (per-command results, final registers) *)
 From Coq Require Import ZArith List QArith Qcanon.
-From Batchie Require Import Lib.Sexp Lib.Num Model.Chunks Model.DistMat Model.Mse.
+From Batchie Require Import Lib.Sexp Lib.Num Lib.PyRt Model.Chunks Model.DistMat Model.Mse
+  Generated.SrcChunks Generated.SrcDistMat.
 Import ListNotations.
 Open Scope Z_scope.
+
+Definition visz_Z (v : Z) : bool := v =? 0.
+Definition of_cdm (o : cdm Z) : sexp :=
+  SL [SZ (c_size o); SZ (c_chunk o); SZ (c_cur o); of_Zs (c_rows o); of_Zs (c_cols o); of_Zs (c_vals o)].
+Definition reg (rs : list (cdm Z)) (r : Z) : option (cdm Z) := if r <? 0 then None else nth_error rs (Z.to_nat r).
+Definition set_reg (rs : list (cdm Z)) (r : Z) (o : cdm Z) : list (cdm Z) :=
+  firstn (Z.to_nat r) rs ++ o :: skipn (S (Z.to_nat r)) rs.
+Definition unit_sexp (_ : unit) : sexp := SL [].
+Definition as_unit {A} (r : result A) : result unit := match r with Ok _ => Ok tt | Err t => Err t end.
+(* an object-producing call: the object is appended to the registers *)
+Definition push_obj (rs : list (cdm Z)) (r : result (cdm Z)) : list (cdm Z) * sexp :=
+  (match r with Ok o => rs ++ [o] | Err _ => rs end, of_result unit_sexp (as_unit r)).
+
+Definition script_step (rs : list (cdm Z)) (cmd : sexp) : option (list (cdm Z) * sexp) :=
+  match cmd with
+  | SL [SZ 0; size; nch; ci; cs] =>
+      do size <- as_Z size; do nch <- as_Z nch; do ci <- as_Z ci; do cs <- as_option as_Z cs;
+      Some (push_obj rs (src_cdm_init Z 0 visz_Z (cdm_blank Z) size nch ci cs))
+  | SL [SZ 1; r; i; j; v] =>
+      do r <- as_Z r; do i <- as_Z i; do j <- as_Z j; do v <- as_Z v; do o <- reg rs r;
+      let res := src_cdm_add_value Z 0 visz_Z o i j v in
+      Some (match res with Ok o' => set_reg rs r o' | Err _ => rs end, of_result unit_sexp (as_unit res))
+  | SL [SZ 2; ra; rb] =>
+      do ra <- as_Z ra; do rb <- as_Z rb; do a <- reg rs ra; do b <- reg rs rb;
+      Some (push_obj rs (src_cdm_combine Z 0 visz_Z a b))
+  | SL [SZ 3; l] =>
+      do l <- as_Zs l; do os <- opt_map_all (reg rs) l;
+      Some (push_obj rs (src_cdm_concat Z 0 visz_Z os))
+  | SL [SZ 4; r] =>
+      do r <- as_Z r; do o <- reg rs r; Some (rs, of_result of_bool (src_cdm_is_complete Z 0 visz_Z o))
+  | SL [SZ 5; r] =>
+      do r <- as_Z r; do o <- reg rs r; Some (rs, of_result (of_list of_Zs) (src_cdm_to_dense Z 0 visz_Z o))
+  | SL [SZ 7; r] =>
+      do r <- as_Z r; do o <- reg rs r;
+      Some (push_obj rs (dor f <- src_cdm_save Z 0 visz_Z o; src_cdm_load Z 0 visz_Z f))
+  | SL [SZ 6; n; k; c] =>
+      do n <- as_Z n; do k <- as_Z k; do c <- as_Z c;
+      Some (rs, of_result (of_list (of_pair SZ SZ)) (src_get_lower_triangular_indices_chunk n k c))
+  | _ => None
+  end.
+
+Fixpoint run_script (rs : list (cdm Z)) (cmds : list sexp) (outs : list sexp) : sexp :=
+  match cmds with
+  | [] => SL [SL (rev outs); SL (map of_cdm rs)]
+  | cmd :: r => match script_step rs cmd with
+                | Some (rs', o) => run_script rs' r (o :: outs)
+                | None => bad_input
+                end
+  end.
+
+(* the translated pipeline, as Proofs/C07SourcePipeline.src_pipeline composes it, on an integer metric table *)
+Definition src_pipeline_Z (D : list (list Z)) (n : nat) (c : Z) (order : list Z) : result (list (list Z)) :=
+  dor ms <- res_map_all (fun k => dor m <- src_calculate_pairwise Z 0 visz_Z Z Z (Z.of_nat n) (fun i => i) (fun t => t)
+                                              (fun a b => nth (Z.to_nat b) (nth (Z.to_nat a) D []) 0) k c;
+                                  dor f <- src_cdm_save Z 0 visz_Z m; src_cdm_load Z 0 visz_Z f) order;
+  dor m <- src_cdm_concat Z 0 visz_Z ms;
+  src_cdm_to_dense Z 0 visz_Z m.
 
 Definition of_pairs (l : list (nat * nat)) : sexp := of_list (of_pair of_nat of_nat) l.
 
@@ -32,5 +98,11 @@ Definition run_c07 (orc : oracle) (s : sexp) : sexp :=
       | Some n, Some c, Some k => of_pairs (chunk n k c)
       | _, _, _ => bad_input
       end
+  | SL [SZ 4; n; c; order; D] =>
+      match as_nat n, as_Z c, as_Zs order, as_listof as_Zs D with
+      | Some n, Some c, Some order, Some D => of_result (of_list of_Zs) (src_pipeline_Z D n c order)
+      | _, _, _, _ => bad_input
+      end
+  | SL [SZ 5; SL script] => run_script [] script []
   | _ => bad_input
   end.
